@@ -108,6 +108,8 @@ def parse_module(path):
     # C casts / address-of used only in the field kernels
     py = re.sub(r'<\s*(?:double|int|long)\s*\*?\s*>', '', py)
     py = py.replace('&', '')
+    py = re.sub(r'malloc\([^\n]*\)', 'malloc()', py)
+    py = re.sub(r'prange\(([^,\n]+),[^\n]*\n[^\n]*\):', r'range(\1):', py)
     try:
         tree = ast.parse(py)
     except SyntaxError as e:
